@@ -49,6 +49,10 @@ def sorts(**kw):
     SORTS.update(kw)
 
 
+def write_once(*attrs):
+    """attributes that only `self.<attr> = ...` inside an `__init__` ever assigns (checked on the real source every run)"""
+
+
 # ----------------------------------------------------------------------------- concrete spec functions
 def card(s):
     return len(s)
@@ -114,4 +118,19 @@ SPECS = {}
 def specrec(fn):
     """a recursive specification predicate: pyvc declares an uninterpreted predicate with the body as its unfolding axiom"""
     SPECS[fn.__name__] = fn
+    return fn
+
+
+def lemma(key, after, forget=()):
+    """an intermediate assertion (cut): proved where the statement whose source starts with `after` has just been executed, then assumed"""
+    def deco(fn):
+        return fn
+    return deco
+
+
+def elempred(fn):
+    """a heap-independent predicate on list elements; `all_<name>(xs)` is the fold-style 'every element satisfies it'
+    (fold axioms over append / concatenation, elimination at an index, introduction through a witness)"""
+    SPECS[fn.__name__] = fn
+    globals()["all_" + fn.__name__] = lambda xs, _f=fn: all(_f(x) for x in xs)
     return fn
